@@ -441,6 +441,29 @@ m('writepage-keeps-nextpageid', ['C01', 'C10'], DM, """		d.nextPageID = pageID +
 m('reply-channel-unbuffered', ['C12'], 'lib/samehada/request_manager.go', """	retCh := make(chan *reqResult, 1)
 """, """	retCh := make(chan *reqResult)
 """, ['C12-R6 [(*samehada.RequestManager).AppendRequest:callerCh-origin#1]'])
+UE = 'lib/execution/executors/update_executor.go'
+DE = 'lib/execution/executors/delete_executor.go'
+HJE = 'lib/execution/executors/hash_join_executor.go'
+SO = 'lib/planner/optimizer/selinger_optimizer.go'
+m('delete-executor-writes-for-aborted-txn', ['C05', 'C03'], DE, """		if e.txn.GetState() == access.ABORTED {
+			return nil, true, err
+		}
+
+		rid := t.GetRID()
+		tableMetadata""", """		rid := t.GetRID()
+		tableMetadata""", ['C05-R3 [DeleteExecutor.Next:no-write-for-aborted-txn]'])
+m('hash-join-keys-resolved-in-wrong-child', ['C11'], SO, """plans.NewHashJoinPlanNodeWithChilds(left, parser.ConvColumnStrsToExpIfOnes(so.c, left, leftCols, true), right, parser.ConvColumnStrsToExpIfOnes(so.c, right, rightCols, false))""", """plans.NewHashJoinPlanNodeWithChilds(left, parser.ConvColumnStrsToExpIfOnes(so.c, left, leftCols, true), right, parser.ConvColumnStrsToExpIfOnes(so.c, nil, rightCols, false))""", ['C11-R5 [(*planner/optimizer.SelingerOptimizer).findBestJoinInner:hash-join#1:right-keys]'])
+m('applydelete-fsp-off-by-size', ['C15'], TP, """	tp.SetFreeSpacePointer(freeSpacePointer + tupleSize)
+	tp.SetTupleSize(slotNum, 0)""", """	tp.SetFreeSpacePointer(freeSpacePointer + tupleSize - 1)
+	tp.SetTupleSize(slotNum, 0)""", ['C15-R5 [TablePage.ApplyDelete:free-space-pointer-moves-with-the-bytes'])
+m('applydelete-shift-by-other-distance', ['C15'], TP, """			tp.SetTupleOffsetAtSlot(uint32(ii), tupleOffsetII+tupleSize)""", """			tp.SetTupleOffsetAtSlot(uint32(ii), tupleOffsetII+tupleSize+1)""", ['C15-R5 [TablePage.ApplyDelete:offset-shift-equals-move-distance'])
+m('updatetuple-threshold-excludes-neighbours', ['C15', 'C03'], TP, """tupleOffsetI < tupleOffset+tupleSize {""", """tupleOffsetI < tupleOffset+tupleSize-updateTuple.Size() {""", ['C15-R5 [TablePage.UpdateTuple:fix-up-selects-the-moved-rows'])
+m('skiplist-remove-no-counter-bump', ['C17'], SLB, """		node.RemoveInner(int(foundIdx))
+
+		node.SetLSN(node.GetLSN() + 1)
+""", """		node.RemoveInner(int(foundIdx))
+
+""", ['C17-R6 [SkipListBlockPage.Remove:counter-bumped-with-RemoveInner'])
 # drop the one that needs a helper that does not exist
 M = [x for x in M if x['id'] != 'insert-executor-unlocks-early']
 os.chdir(os.path.dirname(os.path.abspath(__file__)) + '/..')
